@@ -172,13 +172,19 @@ LAYOUTS = ("full", "compact")
 ROUTES = ("qpoints", "dmrun")
 
 
-def routes_of(method, layout):
+FULLTERMS_CFGS = None      # ids of the configurations on which the full-terms object is exercised (None: all)
+
+
+def routes_of(method, layout, cid=None):
     """call routes exercised for an object: the two production routes everywhere; on full force constants also
     the non-OpenMP q-point loop, the pure-Python Wang branch and the Gonze-Lee object with all Ewald terms."""
     r = list(ROUTES)
     if layout == "full":
         r.append("qpoints_py")
-        r.append("wang_py" if method == "wang" else "fullterms")
+        if method == "wang":
+            r.append("wang_py")
+        elif FULLTERMS_CFGS is None or cid in FULLTERMS_CFGS:
+            r.append("fullterms")
     return r
 
 # tolerances (relative to the largest element of the plain dynamical matrix at the point);
@@ -191,6 +197,8 @@ def run(ctx):
                 "call route) evaluated on the real code; configurations = polar catalogue crystals x supercell "
                 "matrices x random integer raw Born/dielectric tensors (symmetrised exactly in TLA+)")
     cfgs = make_cfgs(ctx)
+    global FULLTERMS_CFGS
+    FULLTERMS_CFGS = set(c["id"] for c in cfgs[:2]) if ctx.quick else None
     mc = "---- MODULE MC_NAC ----\nEXTENDS NAC\nMCCfgs == {\n%s\n}\n====\n" % ",\n".join(cfg_tla(c) for c in cfgs)
     res = ctx.tlc("MC_NAC", cfg_text=cfg_model(ctx), extra_files={"MC_NAC.tla": mc}, requirement=False,
                   dump=True, keep=True, coverage=not ctx.quick, extra_args=("-continue",), workers=4)
@@ -271,7 +279,8 @@ def run(ctx):
                 raise tlcmod.MachineryError("non-vacuity guard ImplActive failed: %s"
                                             % json.dumps(wit, default=str)[:400])
             continue
-        ctx.violation("nac:" + nm, "C08 %s fails on values recorded from the implementation" % nm,
+        ctx.violation(("nac:fullterms:" if nm.startswith("ImplFullTerms") else "nac:") + nm,
+                      "C08 %s fails on values recorded from the implementation" % nm,
                       dict(invariant=nm, witness=wit))
     ctx.traces += len(events)
     ctx.extra["configurations"] = [dict(id=c["id"], entry=c["entry"], S=c["S"], born=c["mode"]) for c in cfgs]
@@ -337,12 +346,13 @@ def replay_cfg(ctx, c, case, spec, margins, fname):
         exp = case.k_cart_expected(st["K"])
         runs = []
         for (method, layout), ph in objs.items():
-            for route in routes_of(method, layout):
+            for route in routes_of(method, layout, c["id"]):
                 try:
                     d1 = case.nac_dm(ph, gam0, route, direction=n_p)
                     d7 = case.nac_dm(ph, gam0, route, direction=lam * n_p)
                 except Exception as e:
-                    ctx.violation("nac:gamma-raises", "zone-centre query raised %r" % e,
+                    ctx.violation("nac:fullterms:gamma-raises" if route == "fullterms" else "nac:gamma-raises",
+                                  "zone-centre query raised %r" % e,
                                   dict(cfg=c, n=n_u, method=method, layout=layout, route=route))
                     continue
                 ctx.count(("gamma", c["id"], tuple(n_u), method, layout, route))
@@ -350,7 +360,7 @@ def replay_cfg(ctx, c, case, spec, margins, fname):
                 e7 = np.abs(d7 - d1).max() / scale0
                 margins["gamma"] = max(margins["gamma"], e1, e7)
                 if not (e1 <= TOL["gamma"] and e7 <= TOL["gamma"]):
-                    ctx.violation("nac:replay-gamma:%s" % (method if route != "fullterms" else "fullterms"),
+                    ctx.violation(("nac:replay-gamma:%s" % method) if route != "fullterms" else "nac:fullterms:replay-gamma",
                                   "D(Gamma; n) differs from D_plain + (4 pi f/V) K(n)/sqrt(mm') or depends on |n|",
                                   dict(cfg=c, n_unit=n_u, n_prim=n_p, method=method, layout=layout, route=route,
                                        rel_err=float(e1), rel_err_lam=float(e7), unit_system=fname,
@@ -391,11 +401,12 @@ def replay_cfg(ctx, c, case, spec, margins, fname):
             dpl = case.plain_dm(q_p)
             sc = max(np.abs(dpl).max(), nsc, 1e-300)
             for (method, layout), ph in objs.items():
-                for route in routes_of(method, layout):
+                for route in routes_of(method, layout, c["id"]):
                     try:
                         d1 = case.nac_dm(ph, q_p, route)
                     except Exception as e:
-                        ctx.violation("nac:comm-raises", "query raised %r" % e, dict(cfg=c, q=q_p, method=method))
+                        ctx.violation("nac:fullterms:comm-raises" if route == "fullterms" else "nac:comm-raises",
+                                      "query raised %r" % e, dict(cfg=c, q=q_p, method=method))
                         continue
                     ctx.count(("comm", c["id"], tuple(y), method, layout, route))
                     e1 = np.abs(d1 - dpl).max() / sc
@@ -410,7 +421,7 @@ def replay_cfg(ctx, c, case, spec, margins, fname):
                     margins[key] = max(margins[key], e1)
                     zero = bool(e1 <= TOL[key])
                     if not zero:
-                        ctx.violation("nac:replay-commensurate:%s" % (method if route != "fullterms" else "fullterms"),
+                        ctx.violation(("nac:replay-commensurate:%s" % method) if route != "fullterms" else "nac:fullterms:replay-commensurate",
                                       "the correction changes the dynamical matrix at a non-zero commensurate point",
                                       dict(cfg=c, label=st["n"], image=y, q_prim=q_p, kind=kind, method=method,
                                            layout=layout, route=route, rel_dev=float(e1), tolerance=TOL[key]))
@@ -430,11 +441,12 @@ def replay_cfg(ctx, c, case, spec, margins, fname):
         sc = max(np.abs(dpl).max(), nsc, 1e-300)
         runs = []
         for (method, layout), ph in objs.items():
-            for route in routes_of(method, layout):
+            for route in routes_of(method, layout, c["id"]):
                 try:
                     d1 = case.nac_dm(ph, q_p, route)
                 except Exception as e:
-                    ctx.violation("nac:generic-raises", "query at an arbitrary q raised %r" % e,
+                    ctx.violation("nac:fullterms:generic-raises" if route == "fullterms" else "nac:generic-raises",
+                                  "query at an arbitrary q raised %r" % e,
                                   dict(cfg=c, q=q_p, method=method, layout=layout, route=route))
                     continue
                 ctx.count(("generic", c["id"], tuple(x), method, layout, route))
@@ -445,7 +457,7 @@ def replay_cfg(ctx, c, case, spec, margins, fname):
                 if zero_born:
                     margins[key] = max(margins[key], e1)
                     if not (e1 <= TOL[key]):
-                        ctx.violation("nac:replay-zero-born:%s" % (method if route != "fullterms" else "fullterms"),
+                        ctx.violation(("nac:replay-zero-born:%s" % method) if route != "fullterms" else "nac:fullterms:replay-zero-born",
                                       "zero Born charges change the dynamical matrix",
                                       dict(cfg=c, q_prim=q_p, method=method, layout=layout, route=route,
                                            rel_dev=float(e1), tolerance=TOL[key]))
@@ -511,12 +523,12 @@ def ewald_checks(ctx, c, case, zs, es, ph, q_p, margins):
         expf = ew.dd_matrix(qc, lat, tau, eps, born, prim.masses, case.factor, 2.5)
         e2 = np.abs(gotf - expf).max() / np.abs(expf).max()
     except Exception as e:
-        ctx.violation("nac:ewald-full-raises", "Gonze-Lee object with all terms raised %r" % e, dict(cfg=c))
+        ctx.violation("nac:fullterms:ewald-raises", "Gonze-Lee object with all terms raised %r" % e, dict(cfg=c))
         e2 = float("inf")
     margins["ewald_full"] = max(margins.get("ewald_full", 0.0), e2 if np.isfinite(e2) else 1e300)
     ctx.count(("ewald-full", c["id"]))
     if not (e2 <= 1e-7):
-        ctx.violation("nac:replay-ewald:fullterms", "dipole-dipole term of DynamicalMatrixGL(with_full_terms=True) differs "
+        ctx.violation("nac:fullterms:replay-ewald", "dipole-dipole term of DynamicalMatrixGL(with_full_terms=True) differs "
                       "from the converged Ewald sum", dict(cfg=c, q_prim=q_p, rel_err=float(e2), Lambda=lam))
     out.append(dict(what="full", ok=bool(e2 <= 1e-7)))
     return out
